@@ -124,7 +124,9 @@ def build(rng, consistent=True, parallel=False, nr=None, no=None):
         for _, tag, h, _, pos in recs_r:
             ub.add_reflection(tuple(float(x) for x in h), Position(*pos), 12.0, tag)
         for _, tag, h, xyz, pos in recs_o:
-            ub.add_orientation(tuple(float(x) for x in h), tuple(float(x) for x in xyz), Position(*pos), tag)
+            # the position of an orientation is optional: all zeros may be given as such or left out
+            pobj = None if all(x == 0 for x in pos) and rng.random() < 0.6 else Position(*pos)
+            ub.add_orientation(tuple(float(x) for x in h), tuple(float(x) for x in xyz), pobj, tag)
     return ub, U0, B, recs_r, recs_o
 
 
@@ -327,7 +329,7 @@ def mutate_lists(rng, ub, B, U0, rr, ro, good):
         for _ in range(rng.randint(1, 3)):
             which = rng.choice(["R", "O"])
             lst = rr if which == "R" else ro
-            k = rng.choice(["swap", "swap", "del", "retag", "add"])
+            k = rng.choice(["swap", "swap", "del", "retag", "add", "scribble"])
             addr = lambda i: (lst[i][1] if lst[i][1] is not None and [r[1] for r in lst].index(lst[i][1]) == i and rng.random() < 0.5 else i + 1)
             if k == "swap" and len(lst) >= 2:
                 i, j = rng.sample(range(len(lst)), 2)
@@ -350,6 +352,16 @@ def mutate_lists(rng, ub, B, U0, rr, ro, good):
                 if any(lst[i] is g for g in good):
                     good.append(rec)
                 lst[i] = rec
+            elif k == "scribble" and lst:
+                # the caller corrects the angles of ONE stored record in place, on the object the getter hands out: that record changes,
+                # no other record does
+                i = rng.randrange(len(lst))
+                obj = (ub.get_reflection if which == "R" else ub.get_orientation)(i + 1)
+                newpos = tuple(rng.uniform(-60, 60) for _ in range(6))
+                for ax, v in zip(("mu", "delta", "nu", "eta", "chi", "phi"), newpos):
+                    setattr(obj.pos, ax, v)
+                kind, tag, h, xyz, _ = lst[i]
+                lst[i] = (kind, tag, h, xyz, newpos)
             elif k == "add":
                 # a record that does NOT agree with U0 (a bad reflection kept in the list)
                 tag = rng.choice(["a", "b", "c", "x", "y", None])
